@@ -50,4 +50,11 @@ OutsideCone(I, NF, ax, thick, steps) == Dist(I, NF, ax, thick) > steps
 \* parity-consistent reduced initial fields: odd on-plane components vanish on the plane row
 Consistent(r, NR, ax, ft) ==
     \A i \in 1..Size(NR) : (Coord(i, NR, ax + 1) = 0 /\ OnPlane(ft, Comp(i, NR), ax)) => r[i] = 0
+
+\* Volume-reduced detector records (mean over a cell-symmetric region [n-w, n+w) straddling the plane): the full-domain
+\* record is determined by the kept half's record only for samples half a cell off the plane (they pair n-1-j <-> n+j
+\* inside the region: even components keep their mean, odd ones vanish).  Samples ON the plane occupy the node rows
+\* n-w .. n+w-1, which are not symmetric about row n.  Co-located detectors sample every component at (i, j, k+1/2):
+\* off the plane only for a z plane (ax = 2); raw detectors sample each component at its own Yee position.
+SampledOffPlane(ft, p, ax, colocated) == IF colocated THEN ax = 2 ELSE ~OnPlane(ft, p, ax)
 =============================================================================
